@@ -1,7 +1,7 @@
 import Op2Proofs.Prt.Post
 /-! What holds of everything the PRT reader returns: representable, cross-field rules. -/
 namespace Op2.Prt
-open Op2 Op2.Parser
+open Op2 Op2.Parser Op2.Parser.PrtInv
 
 theorem post_imageP : Post imageP ImageMeta.Rep := by
   refine post_map (post_true _) ?_
